@@ -243,6 +243,10 @@ func checkJsonRpcUrlChildCompatible(d *directive.Directive) *jerr.JApiError {
 	var isBaseJsonRpc bool
 
 	for _, dd := range d.Children {
+		if dd.Type() == directive.Tags {
+			// Tags applies to HTTP and JSON-RPC methods alike.
+			continue
+		}
 		if base == nil {
 			base = dd
 			isBaseJsonRpc = isJsonRpcUrlChildDirective(base)
